@@ -486,6 +486,11 @@ class MinFlowDecomp(pathmodel.AbstractPathModelDAG): # Note that we inherit from
             subgraph_subpath_constraints = [c for c in self.subpath_constraints if all(n in subgraph.nodes() for n in c)]
             subgraph_edges_to_ignore = [e for e in self.edges_to_ignore if all(n in subgraph.nodes() for n in e)]
             
+            # (a window in which no non-ignored edge carries a flow value has nothing to decompose and gives no bound)
+            if not any(self.flow_attr in data and (u, v) not in subgraph_edges_to_ignore for u, v, data in subgraph.edges(data=True)):
+                right_node_index = min(right_node_index + MinFlowDecomp.subgraph_lowerbound_shift, self.G.number_of_nodes() - 1)
+                continue
+
             subgraph_optimization_options = copy.deepcopy(self.optimization_options)
             subgraph_optimization_options["use_subgraph_scanning_lowerbound"] = False
             subgraph_optimization_options["lowerbound_k"] = current_lowerbound_k
